@@ -70,8 +70,37 @@ pub fn dispatch(st: &mut State, fam: &str, rest: &str) -> Option<String> {
 		("_into", 3) => { let (len, x) = (num(a[1]) as usize, num(a[2]));
 			if len > (1 << 20) { return Some("toolarge".to_string()); }
 			let mut dest = vec![0xAAu8; len];
-			if is_va { with_specific!(st, k, g, p => { let _ = g; match p.deref_into::<[u8]>((x as VaT).into(), &mut dest[..]) { Ok(()) => format!("ok {}", hex(&dest)), Err(e) => er(e) } }) }
-			else { with_any!(st, k, g, p => { let _ = g; match p.derva_into::<[u8]>(x as u32, &mut dest[..]) { Ok(()) => format!("ok {}", hex(&dest)), Err(e) => er(e) } }) } },
+			// the copying read is documented to be byte-wise and alignment-free whatever the destination type: the
+			// same request with a [u16] / [u32] / [u64] destination of the same byte length has to give the same
+			// answer; the first variant that deviates from the [u8] one is what this operation answers
+			if is_va { with_specific!(st, k, g, p => { let _ = g;
+				let first = match p.deref_into::<[u8]>((x as VaT).into(), &mut dest[..]) { Ok(()) => format!("ok {}", hex(&dest)), Err(e) => er(e) };
+				macro_rules! call { ($W:ty) => { |d: &mut [$W]| p.deref_into::<[$W]>((x as VaT).into(), d) } }
+				let mut ans = first.clone();
+				macro_rules! one { ($W:ty) => {{ let w = std::mem::size_of::<$W>();
+					if ans == first && len % w == 0 {
+						let mut d = vec![0 as $W; len / w];
+						for b in unsafe { std::slice::from_raw_parts_mut(d.as_mut_ptr() as *mut u8, len) } { *b = 0xAA; }
+						let r: pelite::Result<()> = (call!($W))(&mut d[..]);
+						let a = match r { Ok(()) => format!("ok {}", hex(unsafe { std::slice::from_raw_parts(d.as_ptr() as *const u8, len) })), Err(e) => er(e) };
+						if a != first { ans = a; }
+					} }} }
+				one!(u16); one!(u32); one!(u64);
+				ans }) }
+			else { with_any!(st, k, g, p => { let _ = g;
+				let first = match p.derva_into::<[u8]>(x as u32, &mut dest[..]) { Ok(()) => format!("ok {}", hex(&dest)), Err(e) => er(e) };
+				macro_rules! call { ($W:ty) => { |d: &mut [$W]| p.derva_into::<[$W]>(x as u32, d) } }
+				let mut ans = first.clone();
+				macro_rules! one { ($W:ty) => {{ let w = std::mem::size_of::<$W>();
+					if ans == first && len % w == 0 {
+						let mut d = vec![0 as $W; len / w];
+						for b in unsafe { std::slice::from_raw_parts_mut(d.as_mut_ptr() as *mut u8, len) } { *b = 0xAA; }
+						let r: pelite::Result<()> = (call!($W))(&mut d[..]);
+						let a = match r { Ok(()) => format!("ok {}", hex(unsafe { std::slice::from_raw_parts(d.as_ptr() as *const u8, len) })), Err(e) => er(e) };
+						if a != first { ans = a; }
+					} }} }
+				one!(u16); one!(u32); one!(u64);
+				ans }) } },
 		("_slice", 4) => { let (t, x, len) = (a[1], num(a[2]), num(a[3]) as usize);
 			if is_va { with_specific!(st, k, g, p => by_type!(t, T => match p.deref_slice::<T>((x as VaT).into(), len) { Ok(r) => format!("ok {}", tref(g, r.as_ptr(), r.len() * std::mem::size_of::<T>())), Err(e) => er(e) })) }
 			else { with_any!(st, k, g, p => by_type!(t, T => match p.derva_slice::<T>(x as u32, len) { Ok(r) => format!("ok {}", tref(g, r.as_ptr(), r.len() * std::mem::size_of::<T>())), Err(e) => er(e) })) } },
